@@ -9,8 +9,10 @@ META = {
 }
 
 
-def classify(ev):
-    return None
+def classify(ev, opened=None):
+    opened = opened or {}
+    plan = ev.get("plan") or opened.get("plan")
+    return relcommon.semijoin_rev_key(ev.get("err"), plan)
 
 
 def run(ctx):
